@@ -100,7 +100,7 @@ def cases(draw):
         strategies=('ddmin', 'ddmin', 'hierarchical', 'hybrid'),
         jobs=(2, 3, 4, 8) if not many else (2, 2, 3),
         formats=('default', ), with_cc=False, with_delay=True, comparisons=False,
-        max_asserts=16 if many else 6, kinds=['hash', 'hash', 'mixed', 'monotone']))
+        max_asserts=16 if many else 6, kinds=['hash', 'hash', 'mixed', 'monotone'], mixed_inputs=not many))
     c['delay'] = [draw(st.integers(0, 10**6)), draw(st.sampled_from([[0, 1, 5, 20], [0, 0, 3, 12], [0, 2]]))]
     return c
 
